@@ -45,7 +45,7 @@ func init() {
 		CaseTimeout: 120 * time.Second,
 		ChildSetup:  c18Setup,
 		Require: func(tier string) map[string]int64 {
-			return map[string]int64{"stream_bytes_checked": 20000000, "eof_cases": 40, "wrong_type_cases": 12, "deadline_idle_branch_seen": 30, "deadline_active_branch_seen": 30, "deadline_reset_then_round_trip": 30}
+			return map[string]int64{"stream_bytes_checked": 20000000, "eof_cases": 40, "wrong_type_cases": 12, "deadline_idle_branch_seen": 30, "deadline_active_branch_seen": 30, "deadline_reset_then_round_trip": 30, "streams_of_more_than_1000_writes": 8}
 		},
 		Assumptions: []string{
 			"zero length reads are excluded (the property excludes them); empty messages are skipped by the adapter",
@@ -115,6 +115,25 @@ func c18Gen(tier string, seed int64) []fw.Case {
 		}
 		add(d, fmt.Sprintf("%s/%s/%d writes", d.Kind, d.Role, nw))
 	}
+	// long streams: a few thousand small writes (empty ones included) through one adapter
+	for i := 0; i < tierPick(tier, 12, 120); i++ {
+		d := c18Desc{Kind: []string{"stream-pair", "stream-raw"}[i%2], Role: bothRoles[(i/2)%2], Text: i%5 == 0, CM: i % 3}
+		nw := 1500 + rng.Intn(1500)
+		for k := 0; k < nw; k++ {
+			switch x := rng.Intn(20); {
+			case x == 0:
+				d.Writes = append(d.Writes, 0)
+			case x < 16:
+				d.Writes = append(d.Writes, 1+rng.Intn(200))
+			default:
+				d.Writes = append(d.Writes, c18Sizes[rng.Intn(len(c18Sizes))]%5000)
+			}
+		}
+		for k := 0; k < 5; k++ {
+			d.Reads = append(d.Reads, 1+rng.Intn(3000))
+		}
+		add(d, fmt.Sprintf("%s-long/%s/%d writes", d.Kind, d.Role, nw))
+	}
 	for _, role := range bothRoles {
 		for _, code := range []int{1000, 1001, 1002, 1003, 1008, 1011, 3000, 4999, 1005} {
 			for _, after := range []int{0, 3} {
@@ -163,7 +182,20 @@ func isDeadlineErr(err error) bool {
 }
 
 func c18Run(r *fw.R, d c18Desc) {
-	r.SetSample(d)
+	if len(d.Writes) > 40 {
+		short := d
+		short.Writes = d.Writes[:40]
+		r.SetSample(map[string]any{"case_with_the_first_40_writes": short, "writes": len(d.Writes)})
+		if len(d.Writes) > 1000 && !r.Failed() {
+			defer func() {
+				if !r.Failed() {
+					r.Count("streams_of_more_than_1000_writes", 1)
+				}
+			}()
+		}
+	} else {
+		r.SetSample(d)
+	}
 	switch d.Kind {
 	case "stream-pair":
 		c18StreamPair(r, d)
